@@ -220,7 +220,7 @@ func c04r2(r *R) {
 				return
 			}
 			if fa, ok := st.Addr.(*ssa.FieldAddr); ok && fieldName(fa.X.Type(), fa.Field) == "aggregateErrors" && structName(fa.X.Type()) == "martian/fifo.group" {
-				if fn == sa || fn.Name() == "ToImmutable" {
+				if fn == sa || refName(fn) == "ToImmutable" {
 					return
 				}
 				n++
@@ -432,14 +432,18 @@ func c04r4(r *R) {
 func c04r5(r *R) {
 	for _, s := range []struct{ fn, test, code string }{
 		{"handleAuthenticationError", "errors.Is($1, forwarder.ErrProxyAuthentication)", "407"},
-		{"handleDenyError", "errors.As($1, local:denyErr)", "403"},
-		{"handleProhibitedError", "errors.As($1, local:currentErr)", "451"},
+		{"handleDenyError", "errors.As:forwarder.denyError", "403"},
+		{"handleProhibitedError", "errors.As:forwarder.prohibitedError", "451"},
 	} {
 		fn := r.fn(".", s.fn)
 		ps, _ := enumPaths(fn, 16, 1)
 		var why []string
 		for _, p := range ps {
 			hit := p.holds(s.test)
+			if strings.HasPrefix(s.test, "errors.As:") {
+				// errors.As into a local of the expected type, whatever the local is called
+				hit = p.hasCond(func(c string) bool { return strings.HasPrefix(c, "errors.As($1, local:") }) && errorsAsTarget(fn) == strings.TrimPrefix(s.test, "errors.As:")
+			}
 			if hit && p.Ret[0] != s.code {
 				why = append(why, "matching error maps to "+p.Ret[0])
 			}
@@ -453,8 +457,8 @@ func c04r5(r *R) {
 	ps, _ := enumPaths(ms, 16, 1)
 	good := false
 	for _, p := range ps {
-		if p.holds("errors.As($1, local:martianErr)") {
-			good = p.Ret[0] == "local:martianErr.Status"
+		if p.hasCond(func(c string) bool { return strings.HasPrefix(c, "errors.As($1, local:") }) {
+			good = strings.HasPrefix(p.Ret[0], "local:") && strings.HasSuffix(p.Ret[0], ".Status") && strings.Contains(errorsAsTarget(ms), "ErrorStatus")
 		}
 	}
 	r.check(good, "handleMartianErrorStatus", ms.Pos(), "→ the error's own status", "martian.ErrorStatus is not mapped to its status")
@@ -490,8 +494,8 @@ func c04r5(r *R) {
 	var handlers []string
 	eachInstr(er, func(ins ssa.Instruction) {
 		if st, ok := ins.(*ssa.Store); ok {
-			if f, ok := unbox(st.Val).(*ssa.Function); ok && strings.HasPrefix(f.Name(), "handle") {
-				handlers = append(handlers, f.Name())
+			if f, ok := unbox(st.Val).(*ssa.Function); ok && strings.HasPrefix(refName(f), "handle") {
+				handlers = append(handlers, refName(f))
 			}
 		}
 	})
@@ -629,4 +633,22 @@ func c04r7(r *R) {
 	}
 	r.check(seed["localhost"] && seed["0.0.0.0"] && seed["::"], "NewHTTPProxy#localhost-seed", np.Pos(), "list seeded with localhost, 0.0.0.0, ::", fmt.Sprintf("localhost list seed is %v", seed))
 	r.check(aliasLower, "NewHTTPProxy#aliases-lowercased", np.Pos(), "hosts-file aliases appended lower-cased", "hosts-file aliases are not appended lower-cased (isLocalhost compares the lower-cased name)")
+}
+
+// errorsAsTarget names the type of the variable errors.As fills in fn ("" when there is none or several).
+func errorsAsTarget(fn *ssa.Function) string {
+	out := ""
+	for _, c := range calls(fn, nameIs("errors.As")) {
+		a := unbox(c.Common().Args[1])
+		p, ok := a.Type().Underlying().(*types.Pointer)
+		if !ok {
+			return ""
+		}
+		t := typeStr(p.Elem())
+		if out != "" && out != t {
+			return ""
+		}
+		out = t
+	}
+	return out
 }
